@@ -136,13 +136,13 @@ Definition misuse_ok (c : cfg) (p : pub) (o : op) (r : result) : bool :=
 (* ---- 3. payloads: a receive returns the next client event, of the requested kind *)
 Definition recv_ok (kind : nat) (e : cev) (r : result) : bool :=
   match kind, e, r with
-  | O, CText n, Ret (VText m) => N.eqb n m
-  | O, CBin _, Raise XPayload => true
-  | S O, CBin n, Ret (VBytes m) => N.eqb n m
-  | S O, CText _, Raise XPayload => true
-  | S (S _), CText n, Ret (VMedia m) => N.eqb n m
-  | S (S _), CBin n, Ret (VMedia m) => N.eqb n m
-  | _, CDisc c, Raise (XDisc z) => Z.eqb z (or1000 c)
+  | O, CText n _, Ret (VText m) => N.eqb n m
+  | O, CBin _ _, Raise XPayload => true
+  | S O, CBin n _, Ret (VBytes m) => N.eqb n m
+  | S O, CText _ _, Raise XPayload => true
+  | S (S _), CText n _, Ret (VMedia m) => N.eqb n m
+  | S (S _), CBin n _, Ret (VMedia m) => N.eqb n m
+  | _, CDisc c _, Raise (XDisc z) => Z.eqb z (or1000 c)
   | _, _, _ => false
   end.
 
